@@ -77,6 +77,9 @@ RECURSIVE ShapeOf(_)
 RawShape == [k |-> "r"]
 ShapeOf(t) == IF IsNested(t) THEN [k |-> "n", sub |-> [i \in DOMAIN t.sub |-> ShapeOf(t.sub[i])]] ELSE RawShape
 
+(* ParseBlob / ParseEl are FUNCTIONS of the bytes: whether a payload tiles does not depend on how often, or in which order, a reader looks at *)
+(* an element.  The element codec expands lazily -- the replay therefore asks a refused element a second time (must be refused again) and    *)
+(* serializes it (must give the bytes it was parsed from).                                                                                  *)
 (* theorems of part A *)
 RoundTrip(t) == LET p == ParseBlob(Encode(t), ShapeOf(t)) IN p.ok /\ p.t = t
 MinimalHeader(t) == LET e == Encode(t) d == DecodeHeader(e) IN d.hdr = HdrLen(t.tag, Len(Payload(t))) /\ d.len = Len(Payload(t))
